@@ -1221,13 +1221,12 @@ class Index:
         """Write current contents of index to disk."""
         f = GitFile(self._filename, "wb", shared_perm=self._shared_perm)
         try:
-            # Filter out extensions with no meaningful data
+            # Leave out the tree cache, which is not implemented (it is read
+            # as empty and would be written as such); every other extension is
+            # written back as it was read, an empty payload included
             meaningful_extensions = []
             for ext in self._extensions:
-                # Skip extensions that have empty data
-                ext_data = ext.to_bytes()
-                if ext_data or isinstance(ext, SparseDirExtension):
-                    # ("sdir" is empty by design: its presence is the signal)
+                if not isinstance(ext, TreeExtension):
                     meaningful_extensions.append(ext)
 
             if self._skip_hash:
@@ -3728,7 +3727,7 @@ class locked_index:
                 extensions=[
                     ext
                     for ext in self._index._extensions
-                    if ext.to_bytes() or isinstance(ext, SparseDirExtension)
+                    if not isinstance(ext, TreeExtension)
                 ],
             )
             # (the checksum is written by close(): a failure there must give
